@@ -93,9 +93,20 @@ Reversed(s, ch) == /\ ~ch.full /\ SrvIdx(s, ch.s) # {} /\ SrvIdx(s, ch.e) # {}
                    /\ (CHOOSE x \in SrvIdx(s, ch.s) : TRUE) > (CHOOSE x \in SrvIdx(s, ch.e) : TRUE)
 
 -----------------------------------------------------------------------------
-(* Documents.  "u" is an untitled: document (no file path); every other     *)
-(* name is src/<name>.gleam in the one package.  d1, d2 exist on disk.      *)
-IsFile(d) == d # "u"
+(* Documents, by the shape of their URI (the driver renders them):           *)
+(*   d1 d2 d3  file:///<root>/src/<name>.gleam in the one package (d1, d2 on  *)
+(*             disk);   e  the same with percent-encoded / non-ASCII path      *)
+(*             segments;   q  = d3's URI with a query and a fragment: it maps   *)
+(*             to the same file path, hence IS d3 for the server (Canon)        *)
+(*   o         file:///... outside any package (no gleam.toml above it)        *)
+(*   h         file://host/share/... (authority: no local path)                 *)
+(*   u         untitled:...        g  another scheme (git:/<path of d1>)        *)
+(* Rule: a document whose URI the server cannot map to a local file path is    *)
+(* ignored - never stored; requests on it answer with an error.  A document is *)
+(* identified by the path its URI maps to.                                     *)
+HasPath(d) == d \notin {"u", "h", "g"}
+InPkg(d) == d \in {"d1", "d2", "d3", "e"}
+Canon(d) == IF d = "q" THEN "d3" ELSE d
 DiskInit(d) == d \in {"d1", "d2"}
 DiskText(d) == IF d = "d1" THEN <<"a", "nl", "a">> ELSE <<"a">>
 
@@ -169,7 +180,7 @@ M_Dequeue ==
   /\ Idle /\ inbox # <<>>
   /\ LET m == Head(inbox) IN
      /\ inbox' = Tail(inbox)
-     /\ cur' = m
+     /\ cur' = [m EXCEPT !.d = Canon(m.d)]
      /\ mpc' = CASE m.k = "req" -> IF Cardinality(inflight) >= MaxInFlight THEN "wait_permit" ELSE "spawn"
                  [] m.k \in {"open", "change", "wchg", "wdel"} -> "lock"
                  [] m.k = "close" -> "close"
@@ -250,14 +261,15 @@ M_ApplyEdit ==
   /\ UNCHANGED <<cvars, mpc, cur, diagTodo, vfsW, loaded, dvars, tvars>>
 
 \* didOpen (and a watched-file change of an unopened file that exists): set_vfs_file_content
+\* the first contact with a file of the package loads every package file from disk
 LoadPkg(d) == [x \in Docs |-> IF x = d THEN cur.chs[1].t
-                              ELSE IF ~loaded /\ IsFile(x) /\ onDisk[x] THEN DiskText(x) ELSE vfsText[x]]
+                              ELSE IF ~loaded /\ InPkg(d) /\ InPkg(x) /\ onDisk[x] THEN DiskText(x) ELSE vfsText[x]]
 M_OpenStore ==
   /\ alive /\ mpc = "locked" /\ cur.k \in {"open", "wchg"} /\ chLeft = <<>>
   /\ LET d == cur.d IN
-     IF ~IsFile(d)
-     THEN \* repaired: ignored.  Before: as_path().unwrap() panicked on the main loop
-          /\ alive' = ~PreFixF9
+     IF ~HasPath(d)
+     THEN \* no local path: ignored.  Before the repair a didOpen panicked on the main loop (as_path().unwrap())
+          /\ alive' = ~(PreFixF9 /\ cur.k = "open")
           /\ vfsW' = FALSE /\ mpc' = "idle" /\ cur' = Nil
           /\ UNCHANGED <<vfsText, vfsVer, opened, pending, loaded, diagTodo>>
      ELSE IF cur.k = "wchg" /\ (opened[d] \/ ~onDisk[d])
@@ -271,7 +283,7 @@ M_OpenStore ==
           /\ vfsVer' = [x \in Docs |-> IF vfsText'[x] # vfsText[x] \/ x = d THEN vfsVer[x] + 1 ELSE vfsVer[x]]
           /\ pending' = pending \cup {x \in Docs : vfsText'[x] # vfsText[x] \/ x = d}
           /\ opened' = IF cur.k = "open" THEN [opened EXCEPT ![d] = TRUE] ELSE opened
-          /\ loaded' = TRUE
+          /\ loaded' = (loaded \/ InPkg(d))
           /\ diagTodo' = IF cur.k = "open" THEN {d} ELSE {}
           /\ mpc' = "stored"
           /\ UNCHANGED <<vfsW, cur, alive>>
@@ -493,10 +505,10 @@ PosCands(s) ==
       \cup {[l |-> p.l, c |-> p.c - 1] : p \in {q \in B : q.c > 0}}
       \cup {[l |-> p.l - 1, c |-> p.c] : p \in {q \in B : q.l > 0}}
       \cup {[l |-> Huge31, c |-> 0], [l |-> 0, c |-> Huge32], [l |-> Huge32, c |-> Huge32]}
-TextOr(d) == IF vfsText[d] = Absent THEN <<"a", "nl", "a">> ELSE vfsText[d]     \* positions are drawn relative to this
+TextOr(d) == IF vfsText[Canon(d)] = Absent THEN <<"a", "nl", "a">> ELSE vfsText[Canon(d)]     \* positions are drawn relative to this
 Change1(s) == {Ch(TRUE, P0, P0, t) : t \in Texts} \cup {Ch(FALSE, p, q, t) : p \in PosCands(s), q \in PosCands(s), t \in Ins}
 ChangeAbsent == {Ch(TRUE, P0, P0, <<"a">>), Ch(FALSE, P0, P0, <<"a">>), Ch(FALSE, [l |-> 1, c |-> 0], P0, <<>>)}
-ChangesFor(d) == IF vfsText[d] = Absent THEN ChangeAbsent ELSE Change1(vfsText[d])
+ChangesFor(d) == IF vfsText[Canon(d)] = Absent THEN ChangeAbsent ELSE Change1(vfsText[Canon(d)])
 \* second change of a notification: a few representatives, positions relative to the text after the first
 Change2(s) == {Ch(TRUE, P0, P0, <<"a">>)} \cup {Ch(FALSE, P0, P0, <<"a">>)}
               \cup {Ch(FALSE, PosOf(s, Len(s)), PosOf(s, Len(s)), <<"c2">>)}
@@ -521,10 +533,10 @@ Messages == UNION {MsgsOf(k, d) : k \in DocKinds, d \in Docs}
 \* simulation: kind drawn with weights, document biased towards those the server holds
 KindSeq == <<"open", "open", "close", "change", "change", "change", "change", "change", "req", "req", "req",
              "wdel", "wchg", "save", "fsdel", "cancel", "dollar", "config">>
-Held == {d \in Docs : vfsText[d] # Absent}
+Held == {d \in Docs : vfsText[Canon(d)] # Absent}
 
 Prefix == <<Msg("open", "d1", 0, <<Ch(TRUE, P0, P0, <<"a", "nl", "c4", "c2">>)>>, P0, "")>>
-Obs == [alive |-> alive, text |-> vfsText, opened |-> opened]
+Obs == [alive |-> alive, text |-> [d \in Docs |-> vfsText[Canon(d)]], opened |-> [d \in Docs |-> opened[Canon(d)]]]
 Pick(S) == IF Gen = "sim" THEN {RandomElement(S)} ELSE S
 
 \* kinds of message, so that simulation draws the kind uniformly and then the parameters
@@ -539,7 +551,7 @@ C_Script ==
                ELSE Messages) :
        /\ (m.k = "req" => nextId <= MaxReqs)
        /\ IF m.k = "fsdel"
-          THEN onDisk' = [onDisk EXCEPT ![m.d] = FALSE] /\ UNCHANGED inbox    \* the driver deletes the file
+          THEN onDisk' = [onDisk EXCEPT ![Canon(m.d)] = FALSE] /\ UNCHANGED inbox    \* the driver deletes the file
           ELSE Send(m) /\ UNCHANGED onDisk
        /\ nextId' = IF m.k = "req" THEN nextId + 1 ELSE nextId
        /\ sent' = IF m.k = "req" THEN sent \cup {nextId} ELSE sent
